@@ -358,6 +358,7 @@ func runC17(c *Ctx) {
 			{Op: "del", Slot: 1},
 			{Op: "tick"},
 			{Op: "get", Slot: 0},
+			{Op: "createflip"},
 		}, settings...)
 		e := &Explorer{C: c, Cfg: cfg, Prop: "C17", Alphabet: alphabet, Depth: depth, MaxLive: 3}
 		e.Check = func(w *World) {
